@@ -1,6 +1,7 @@
 // Harness for property C19 (secrets come from the OS cryptographic source): the dynamic witness.
 //
 //	c19 probe <seed>
+//	c19 fresh <seed> <srp calls> <log-out>     (freshness stage, see fresh.go)
 //
 // For each secret that can be generated without a network it asks the REAL code of the tree twice,
 // calling math/rand.Seed(<seed>) before each run, and prints both results:
@@ -66,8 +67,12 @@ func srpA(r *vc.Rng) func() []byte {
 }
 
 func main() {
+	if len(os.Args) > 1 && os.Args[1] == "fresh" {
+		freshMain(os.Args[2:])
+		return
+	}
 	if len(os.Args) != 3 || os.Args[1] != "probe" {
-		fmt.Fprintln(os.Stderr, "usage: c19 probe <seed>")
+		fmt.Fprintln(os.Stderr, "usage: c19 probe <seed> | c19 fresh <seed> <srp calls> <log-out>")
 		os.Exit(2)
 	}
 	seed, err := strconv.ParseInt(os.Args[2], 10, 64)
